@@ -183,6 +183,12 @@ func (aead *aesCBCAEAD) Open(dst, nonce, ciphertext, additionalData []byte) ([]b
 		return nil, errors.New("message authentication failed")
 	}
 
+	// The body of an authenticated message must still be a whole number of AES blocks:
+	// CryptBlocks panics otherwise, and a holder of the key can produce such a message
+	if len(ciphertext)%aes.BlockSize != 0 {
+		return nil, errors.New("invalid ciphertext size")
+	}
+
 	// Ensure the destination slice has enough capacity
 	size := len(ciphertext)
 	dstLen := len(dst)
